@@ -1,7 +1,8 @@
 """C11 - read_signal returns exactly what was stored, from a path or a stream (engine L).
 
-  roundtrip    container x shape x stored dtype (point) x layout/key x access path x requested
-               dtype (inner loop); files written with the container's own writer
+  roundtrip    container x shape (rank 0 .. 5 where the container can store it) x stored dtype (point)
+               x layout/key x access path (incl. wds_read_signal) x requested dtype (inner loop); files
+               written with the container's own writer
   sph_reads    SPHERE (the one container whose reader is the library's own fixed-size read loop):
                byte order x channels 1..7 x frame counts on both sides of each of the first four
                16384-byte read boundaries x header size/layout x every access path (incl.
@@ -35,9 +36,13 @@ ASSUMPTIONS = [
     "ndarray.tofile) and mc/refs/sphere.py are trusted to store what they are given",
     "sample values are an alphabet: one seeded sequence per array, integer types with their "
     "extreme values in front where every requested cast is defined (16-bit and 8-bit types, 32-bit "
-    "wav); wider integers stay inside int32 and floats inside +-1000; a requested integer dtype "
+    "wav); wider integers stay inside int32 and floats inside +-1000 (stored dtypes 'int64!' / 'uint64!': "
+    "odd values over the whole 64-bit range, nearly all beyond 2**53, which no float64 intermediate "
+    "carries); a requested integer dtype "
     "that cannot hold every stored value is outside the lattice (skipped), so the 'final cast' is "
     "never asked to overflow",
+    "roundtrip shapes of npy / npz / pt / hdf5: rank 0 (a 0-d array / scalar dataset) to rank 5, with "
+    "singleton and empty axes; audio containers and raw binary cannot store rank 0 or rank > 2",
     "raw binary has no dtype of its own: `dtype` there is the interpretation (float64 by default), "
     "so only (stored float64, dtype None) and (stored T, dtype T) are in the property's domain",
     "garbage for wds_read_signal is the stated finite family, not all byte strings",
@@ -1206,7 +1211,8 @@ def subchecks(tier, seed):
             "roundtrip", rt, lambda p: _roundtrip(p, seed),
             "per point (container, shape, stored dtype) the file is written by the container's own "
             "writer and read back for every layout/key x access (suffix-inferred path, path below "
-            "dotted directories, path+force_as, open file+force_as, BytesIO+force_as) x requested "
+            "dotted directories, path+force_as, open file+force_as, BytesIO+force_as, wds_read_signal("
+            "'utt'+suffix, bytes) where neither key nor dtype is asked for) x requested "
             "dtype {None,int16,int32,float32,float64}: array_equal, same shape and dtype as "
             "stored.astype(requested); non-trivial = non-empty array",
             axes=dict(container=list(CONTAINERS), audio_shapes=AUDIO_SHAPES, array_shapes=ARRAY_SHAPES,
